@@ -407,3 +407,32 @@ package casket
 //@   modifies Instance
 //@   ensures [validation_leaves_the_callers_instance_alone] (justValidate && inst != nil) ==> (inst.casketfileInput == old(inst.casketfileInput) && inst.context == old(inst.context))
 //@   at call executeDirectives before [same_steps_in_both_modes_on_the_chosen_instance] arg0 != nil && arg4 == justValidate && (justValidate ==> arg0 != old(inst)) && (!justValidate ==> arg0 == old(inst))
+
+//@ unit callback_registration frames=on props=C16 nilchecks=on filter=`casket\.Controller\)\.(OnFirstStartup|OnStartup|OnRestart|OnRestartFailed|OnShutdown|OnFinalShutdown)$`
+//@ // C16 "lifecycle callbacks once, in order": a directive's setup registers a callback by APPENDING it to its instance's
+//@ // list of that kind - after everything registered before, once, and without touching the other entries or the other
+//@ // lists. The lists are what startWithListenerFds / Restart / ShutdownCallbacks walk front to back (units lifecycle, restart).
+//@ func (*Controller).OnFirstStartup
+//@   requires c != nil && c.instance != nil
+//@   modifies Instance.OnFirstStartup, E:func() error
+//@   ensures [appended_last_earlier_ones_kept] len(c.instance.OnFirstStartup) == old(len(c.instance.OnFirstStartup)) + 1 && c.instance.OnFirstStartup[len(c.instance.OnFirstStartup)-1] == fn && forall(k, 0, old(len(c.instance.OnFirstStartup)), c.instance.OnFirstStartup[k] == old(c.instance.OnFirstStartup[k]))
+//@ func (*Controller).OnStartup
+//@   requires c != nil && c.instance != nil
+//@   modifies Instance.OnStartup, E:func() error
+//@   ensures [appended_last_earlier_ones_kept] len(c.instance.OnStartup) == old(len(c.instance.OnStartup)) + 1 && c.instance.OnStartup[len(c.instance.OnStartup)-1] == fn && forall(k, 0, old(len(c.instance.OnStartup)), c.instance.OnStartup[k] == old(c.instance.OnStartup[k]))
+//@ func (*Controller).OnRestart
+//@   requires c != nil && c.instance != nil
+//@   modifies Instance.OnRestart, E:func() error
+//@   ensures [appended_last_earlier_ones_kept] len(c.instance.OnRestart) == old(len(c.instance.OnRestart)) + 1 && c.instance.OnRestart[len(c.instance.OnRestart)-1] == fn && forall(k, 0, old(len(c.instance.OnRestart)), c.instance.OnRestart[k] == old(c.instance.OnRestart[k]))
+//@ func (*Controller).OnRestartFailed
+//@   requires c != nil && c.instance != nil
+//@   modifies Instance.OnRestartFailed, E:func() error
+//@   ensures [appended_last_earlier_ones_kept] len(c.instance.OnRestartFailed) == old(len(c.instance.OnRestartFailed)) + 1 && c.instance.OnRestartFailed[len(c.instance.OnRestartFailed)-1] == fn && forall(k, 0, old(len(c.instance.OnRestartFailed)), c.instance.OnRestartFailed[k] == old(c.instance.OnRestartFailed[k]))
+//@ func (*Controller).OnShutdown
+//@   requires c != nil && c.instance != nil
+//@   modifies Instance.OnShutdown, E:func() error
+//@   ensures [appended_last_earlier_ones_kept] len(c.instance.OnShutdown) == old(len(c.instance.OnShutdown)) + 1 && c.instance.OnShutdown[len(c.instance.OnShutdown)-1] == fn && forall(k, 0, old(len(c.instance.OnShutdown)), c.instance.OnShutdown[k] == old(c.instance.OnShutdown[k]))
+//@ func (*Controller).OnFinalShutdown
+//@   requires c != nil && c.instance != nil
+//@   modifies Instance.OnFinalShutdown, E:func() error
+//@   ensures [appended_last_earlier_ones_kept] len(c.instance.OnFinalShutdown) == old(len(c.instance.OnFinalShutdown)) + 1 && c.instance.OnFinalShutdown[len(c.instance.OnFinalShutdown)-1] == fn && forall(k, 0, old(len(c.instance.OnFinalShutdown)), c.instance.OnFinalShutdown[k] == old(c.instance.OnFinalShutdown[k]))
